@@ -175,6 +175,15 @@ impl<'a> Ctx<'a> {
 			}
 			o => out.push(outcome_viol("slp_write", &cls, &o)),
 		}
+		// a sink that takes a few bytes per call (and is interrupted now and then) receives the same bytes
+		match real::write_slp_short(&g, 1 + self.built.bytes.len() % 13) {
+			Outcome::Ok(w) => {
+				if let Some(i) = first_diff(&w, &self.built.bytes) {
+					out.push(viol("slp_write_short_sink", &cls, "mismatch", format!("written through a sink that accepts {} bytes per call: differs at byte {}", 1 + self.built.bytes.len() % 13, i)));
+				}
+			}
+			o => out.push(outcome_viol("slp_write_short_sink", &cls, &o)),
+		}
 		// writing the same game object a second time gives the same bytes (nothing is consumed or left behind)
 		if let (Outcome::Ok(w1), Outcome::Ok(w2)) = (real::write_slp(&g), real::write_slp(&g)) {
 			if w1 != w2 {
@@ -902,6 +911,17 @@ impl<'a> Ctx<'a> {
 					continue;
 				}
 			};
+			// the archive does not depend on how many bytes the sink takes per call
+			if let Outcome::Ok(gs) = real::read_slp(&self.built.bytes, false, with_hash) {
+				match real::write_slpp_short(gs, *comp, 1 + arch.len() % 517) {
+					Outcome::Ok(a2) => {
+						if a2 != arch {
+							out.push(viol("slpp_write_short_sink", &cc, "mismatch", format!("archive written through a sink that accepts {} bytes per call differs (first at {:?})", 1 + arch.len() % 517, first_diff(&a2, &arch))));
+						}
+					}
+					o => out.push(outcome_viol("slpp_write_short_sink", &cc, &o)),
+				}
+			}
 			let g2 = match real::read_slpp(&arch, false) {
 				Outcome::Ok(g) => g,
 				o => {
